@@ -55,6 +55,11 @@ pub struct EbrCase {
     /// run the (single) op list on a private collector with three handles instead
     #[serde(default)]
     pub private: bool,
+    /// the last worker does not exit: once all the others are gone it is the surviving thread
+    /// whose collection rounds must run everything that is pending (otherwise the main thread,
+    /// which took no part in the scheduled phase, does that)
+    #[serde(default)]
+    pub survivor: bool,
 }
 
 struct Clo {
@@ -795,6 +800,37 @@ fn round_main() {
     g.flush();
 }
 
+/// The rounds of the surviving thread (whoever calls this): everything pending must have run
+/// within the bound.
+fn quiesce_rounds() -> u64 {
+    // every surviving thread (main) keeps collecting: everything must run within the bound
+    let total = with(|e| e.clos.len() as u64);
+    let bound = 64 + total;
+    let mut rounds = 0u64;
+    loop {
+        let pending = with(|e| e.clos.iter().filter(|c| c.runs == 0).count());
+        if pending == 0 {
+            break;
+        }
+        if rounds >= bound {
+            with(|e| {
+                let lost: Vec<usize> = e.clos.iter().enumerate().filter(|(_, c)| c.runs == 0).map(|(i, _)| i).collect();
+                let by: BTreeSet<usize> = lost.iter().map(|i| e.clos[*i].by).collect();
+                violation(
+                    "C15",
+                    "O-exactly-once",
+                    "O-exactly-once/lost",
+                    &format!("{} of {} deferred functions (ids {:?}..., deferred by threads {:?}) never ran within {} collection rounds of the surviving thread after all other threads exited; trace: {}", lost.len(), total, &lost[..lost.len().min(8)], by, rounds, tail(e)),
+                );
+            });
+        }
+        round_main();
+        main_drain_stash();
+        rounds += 1;
+    }
+    rounds
+}
+
 pub fn run_case(case: &EbrCase) -> Report {
     let n = case.threads.len().max(1);
     {
@@ -845,8 +881,14 @@ pub fn run_case(case: &EbrCase) -> Report {
     crate::QUARANTINE.store(true, std::sync::atomic::Ordering::SeqCst);
     sched::init(n, case.sched.clone());
     let mut handles = Vec::new();
+    let survivor_idx = if case.survivor && n >= 2 { Some(n - 1) } else { None };
+    let (go_tx, go_rx) = std::sync::mpsc::channel::<()>();
+    let mut go_rx = Some(go_rx);
+    let survivor_result = std::sync::Arc::new(std::sync::atomic::AtomicU64::new(u64::MAX));
     for t in 0..n {
         let ops = case.threads.get(t).cloned().unwrap_or_default();
+        let my_rx = if Some(t) == survivor_idx { go_rx.take() } else { None };
+        let my_result = survivor_result.clone();
         handles.push(
             std::thread::Builder::new()
                 .name(format!("w{}", t))
@@ -880,6 +922,18 @@ pub fn run_case(case: &EbrCase) -> Report {
                         th.adopt();
                         th.check_model("exit");
                     }
+                    if let Some(rx) = my_rx {
+                        // the surviving thread: it leaves the schedule, waits until the others
+                        // are gone, and then its rounds alone have to run whatever is pending
+                        with(|e| e.trace.push(format!("t{}:survives", t)));
+                        refresh(t);
+                        sched::op_done();
+                        sched::worker_detach();
+                        let _ = rx.recv();
+                        let r = quiesce_rounds();
+                        my_result.store(r, std::sync::atomic::Ordering::SeqCst);
+                        return;
+                    }
                     with(|e| {
                         e.exited[t] = true;
                         e.trace.push(format!("t{}:exit", t));
@@ -894,44 +948,37 @@ pub fn run_case(case: &EbrCase) -> Report {
         );
     }
     sched::run_all();
-    for h in handles {
+    let mut survivor_handle = None;
+    for (t, h) in handles.into_iter().enumerate() {
+        if Some(t) == survivor_idx {
+            survivor_handle = Some(h);
+            continue;
+        }
         if h.join().is_err() {
             violation("C20", "O-panic", "O-panic/worker", "an EbrWorld worker panicked");
         }
     }
     let summary = sched::finish();
+    let mut survivor_rounds = None;
+    if let Some(h) = survivor_handle {
+        sched::set_step_hook(None);
+        let _ = go_tx.send(());
+        if h.join().is_err() {
+            violation("C20", "O-panic", "O-panic/worker", "the surviving EbrWorld worker panicked");
+        }
+        survivor_rounds = Some(survivor_result.load(std::sync::atomic::Ordering::SeqCst));
+    }
     sched::set_step_hook(None);
     if std::env::var_os("VCHECK_TRACE").is_some() {
         with(|e| eprintln!("TRACE: {}", e.trace.join(" | ")));
     }
-    // every surviving thread (main) keeps collecting: everything must run within the bound
-    let total = with(|e| e.clos.len() as u64);
-    let bound = 64 + total;
-    let mut rounds = 0u64;
-    loop {
-        let pending = with(|e| e.clos.iter().filter(|c| c.runs == 0).count());
-        if pending == 0 {
-            break;
-        }
-        if rounds >= bound {
-            with(|e| {
-                let lost: Vec<usize> = e.clos.iter().enumerate().filter(|(_, c)| c.runs == 0).map(|(i, _)| i).collect();
-                let by: BTreeSet<usize> = lost.iter().map(|i| e.clos[*i].by).collect();
-                violation(
-                    "C15",
-                    "O-exactly-once",
-                    "O-exactly-once/lost",
-                    &format!("{} of {} deferred functions (ids {:?}..., deferred by threads {:?}) never ran within {} collection rounds after all other threads exited; trace: {}", lost.len(), total, &lost[..lost.len().min(8)], by, rounds, tail(e)),
-                );
-            });
-        }
-        round_main();
-        main_drain_stash();
-        rounds += 1;
-    }
+    let rounds = match survivor_rounds {
+        Some(r) => r + quiesce_rounds(),
+        None => quiesce_rounds(),
+    };
     let mut rep = Report::default();
     with(|e| {
-        rep.count("closures", total);
+        rep.count("closures", e.clos.len() as u64);
         rep.count("executed", e.executed);
         rep.count("executed_by_other_after_deferrer_exit", e.executed_foreign_after_exit);
         rep.count("executed_with_peer_cs_active_at_defer", e.executed_with_peer_cs_at_defer);
@@ -1319,14 +1366,16 @@ pub fn free(w: EW, max_threads: usize, max_ops: usize, max_dirs: usize) -> Boxed
                 0u8..20,
                 proptest::collection::vec(proptest::collection::vec(eop(w), 0..=max_ops), n..=n),
                 proptest::collection::vec(edirective(n as u8), 0..=max_dirs),
+                any::<bool>(),
             )
         })
-        .prop_map(|(align, threads, sched)| {
+        .prop_map(|(align, threads, sched, survivor)| {
             serde_json::to_value(EbrCase {
                 align,
                 threads,
                 sched,
                 private: false,
+                survivor,
             })
             .unwrap()
         })
@@ -1341,6 +1390,7 @@ pub fn private(w: EW, max_ops: usize) -> BoxedStrategy<Value> {
                 threads: vec![ops],
                 sched: vec![],
                 private: true,
+                survivor: false,
             })
             .unwrap()
         })
@@ -1404,7 +1454,7 @@ pub fn e1() -> BoxedStrategy<Value> {
             sched.push(Directive { thread: ta, until: Until::Steps(n3) });
             sched.push(Directive { thread: tb, until: Until::OpIndex(base + (r1 + r2 + r3) as u32) });
             sched.push(Directive { thread: ta, until: Until::End });
-            serde_json::to_value(EbrCase { align, threads, sched, private: false }).unwrap()
+            serde_json::to_value(EbrCase { align, threads, sched, private: false, survivor: false }).unwrap()
         })
         .boxed()
 }
@@ -1498,7 +1548,7 @@ pub fn emicro_enumerate(tier: crate::runner::Tier, i: u64) -> Option<Value> {
         sched.push(Directive { thread: first, until: Until::End });
         sched.push(Directive { thread: second, until: Until::End });
         let _ = m.name;
-        return Some(serde_json::to_value(EbrCase { align: (i % 5) as u8, threads, sched, private: false }).unwrap());
+        return Some(serde_json::to_value(EbrCase { align: (i % 5) as u8, threads, sched, private: false, survivor: false }).unwrap());
     }
     None
 }
@@ -1533,7 +1583,7 @@ pub fn e2() -> BoxedStrategy<Value> {
             sched.push(Directive { thread: 1, until: Until::OpIndex(b.len() as u32) });
             a.push(d(EK::DropGuard, 255, 0));
             a.push(d(EK::DropGuard, 0, 0));
-            serde_json::to_value(EbrCase { align, threads: vec![a, b], sched, private: false }).unwrap()
+            serde_json::to_value(EbrCase { align, threads: vec![a, b], sched, private: false, survivor: false }).unwrap()
         })
         .boxed()
 }
@@ -1610,7 +1660,7 @@ pub fn e3() -> BoxedStrategy<Value> {
             for _ in 0..4 {
                 b.push(d(EK::Round, 0, 0));
             }
-            serde_json::to_value(EbrCase { align, threads: vec![a, b, h], sched, private: false }).unwrap()
+            serde_json::to_value(EbrCase { align, threads: vec![a, b, h], sched, private: false, survivor: false }).unwrap()
         })
         .boxed()
 }
@@ -1661,7 +1711,7 @@ pub fn e4() -> BoxedStrategy<Value> {
             for _ in 0..y_rounds_after {
                 y.push(d(EK::Round, 0, 0));
             }
-            serde_json::to_value(EbrCase { align, threads: vec![x, y], sched, private: false }).unwrap()
+            serde_json::to_value(EbrCase { align, threads: vec![x, y], sched, private: false, survivor: false }).unwrap()
         })
         .boxed()
 }
